@@ -132,6 +132,46 @@ func C02real(r *ev.Report) {
 		}
 	})
 
+	// coordinate-pattern representations: unary forms on each, and Add/Subtract against a few partners in both orders
+	ext := CoordPatternReps()
+	partners := []Rep{reps[0].Rep, {ref.G(), ref.I(1)}, {ref.Secp.Neg(ref.G()), ref.I(2)}, {HPoint(), ref.I(3)}, {ref.Secp.Neg(HPoint()), ref.I(1)}, {ref.Secp.Double(ref.G()), ref.I(5)}}
+	r.Bound("coordinate_pattern_representations", len(ext))
+	r.States.Add(int64(len(ext)))
+
+	r.ParFor(len(ext), func(_, i int) {
+		a := ext[i]
+
+		for _, op := range c02UnaryOps {
+			r.Transitions.Add(1)
+			r.Evals.Add(1)
+
+			if key, detail := c02Case(op, a, a); key != "" {
+				c := Case{"op": op}
+				repCase("a", a, c)
+				repCase("b", a, c)
+				r.Violation(key, detail, c)
+			}
+		}
+
+		for _, b := range partners {
+			for _, op := range c02PairOps {
+				for _, pair := range [][2]Rep{{a, b}, {b, a}} {
+					r.Transitions.Add(1)
+					r.Evals.Add(1)
+
+					if key, detail := c02Case(op, pair[0], pair[1]); key != "" {
+						c := Case{"op": op}
+						repCase("a", pair[0], c)
+						repCase("b", pair[1], c)
+						r.Violation(key, detail, c)
+					}
+				}
+			}
+		}
+
+		r.Count("coordinate_pattern_cases", 1)
+	})
+
 	c := Case{"op": "Add"}
 	repCase("a", reps[4].Rep, c)
 	repCase("b", reps[7].Rep, c)
